@@ -50,6 +50,10 @@ func SoupURL(r *rand.Rand) string {
 }
 
 func hostileURL(r *rand.Rand) string {
+	if r.Intn(30) == 0 {
+		// "host:port" written without a scheme: to a browser (and to RFC 3986) the part before the colon IS a scheme
+		return Pick(r, []string{"x.y:1", "web.cal:80/x", "example.org:8080/path?q", "localhost:3000", "a.b:65535#f", "cdn.example.net:443/a.png", "1.2.3.4:80/", "x.y:99999", "x.y:1a"})
+	}
 	switch r.Intn(13) {
 	case 12: // fragment-only and query-only references with bytes no URL may contain
 		return Pick(r, []string{"#\x01", "#a\rb", "#\x7f", "#a\x00b", "#%zz", "#%", "#top\x0b", "?\x01", "?a=\x7f", "#a b", "#\t", "# ", "#a\fb", "?q=\x1b", "#é\x02"})
@@ -134,7 +138,7 @@ func CanonicalURL(r *rand.Rand, scheme string) string {
 	case "":
 		return Pick(r, []string{"/%2Fx", "%2F%2Fx", "/%2f/y", "/a/b.png", "a/b.png", "/", "x.html", "../up", "?a=1", "#top", "/p?a=1&b=2#f", "//cdn.example.net/lib.js"})
 	case "mailto":
-		return "mailto:" + Pick(r, []string{"user@example.org", "a.b@example.org", "x@example.org?subject=hi"})
+		return "mailto:" + Pick(r, []string{"user@example.org", "a.b@example.org", "x@example.org?subject=hi", "a@example.org?subject=hi&body=line1%0Aline2", "x@example.org?body=a%0D%0Ab"})
 	case "tel":
 		return "tel:+15551234"
 	case "data":
